@@ -59,6 +59,40 @@ static int ref_msb(u64 x) { int r = 0; while (x) { ++r; x >>= 1; } return r; }  
 static int ref_lsb(u64 x) { if (!x) return 0; int r = 1; while (!(x & 1)) { ++r; x >>= 1; } return r; }
 static int ref_pop(u64 x) { int r = 0; while (x) { r += (int)(x & 1); x >>= 1; } return r; }
 static bool ref_pow2(u64 x) { return ref_pop(x) == 1; }
+// fast references for the exhaustive 2^32 sweep (compiler builtins and a byte table built from ref_rev); they are
+// themselves compared with the naive loops above on the structured input set (fast_selfcheck)
+static uint8_t rev8_tab[256];
+static void init_fast() { for (int i = 0; i < 256; ++i) rev8_tab[i] = (uint8_t)ref_rev((u64)i, 8); }
+static inline u64 fast_rev32(u64 x) { return ((u64)rev8_tab[x & 0xff] << 24) | ((u64)rev8_tab[(x >> 8) & 0xff] << 16) | ((u64)rev8_tab[(x >> 16) & 0xff] << 8) | rev8_tab[(x >> 24) & 0xff]; }
+static inline int fast_msb(u64 x) { return x ? 64 - __builtin_clzll(x) : 0; }
+static inline int fast_lsb(u64 x) { return x ? __builtin_ctzll(x) + 1 : 0; }
+static inline int fast_pop(u64 x) { return __builtin_popcountll(x); }
+enum Kind { K_NONE, K_REV, K_MSB, K_MSBNZ, K_LSB, K_LSBNZ, K_POP, K_ZBC, K_POW2 };
+static Kind kind_of(const char* n) {
+    const char* d = strchr(n, '.'); if (!d) return K_NONE; ++d;
+    if (!strncmp(n, "bit_reversal.", 13) || strstr(d, "rbo") || strstr(d, "RBO")) return strstr(d, "byte") ? K_NONE : K_REV;
+    if (strstr(d, "msb32nz") || strstr(d, "MSBnz")) return K_MSBNZ;
+    if (strstr(d, "lsb32nz") || strstr(d, "LSBnz")) return K_LSBNZ;
+    if (strstr(d, "msb") || strstr(d, "MSB")) return K_MSB;
+    if (strstr(d, "lsb") || strstr(d, "LSB")) return K_LSB;
+    if (strstr(d, "sbc") || strstr(d, "SBC")) return K_POP;
+    if (strstr(d, "zbc") || strstr(d, "ZBC")) return K_ZBC;
+    if (strstr(d, "isPow2")) return K_POW2;
+    return K_NONE;
+}
+static inline bool fast_ref(Kind k, u64 x, i64& r) {
+    switch (k) {
+    case K_REV: r = (i64)fast_rev32(x); return true;
+    case K_MSB: r = fast_msb(x); return true;
+    case K_MSBNZ: if (!x) return false; r = fast_msb(x) - 1; return true;
+    case K_LSB: r = fast_lsb(x); return true;
+    case K_LSBNZ: if (!x) return false; r = fast_lsb(x) - 1; return true;
+    case K_POP: r = fast_pop(x); return true;
+    case K_ZBC: r = 32 - fast_pop(x); return true;
+    case K_POW2: r = fast_pop(x) == 1; return true;
+    default: return false;
+    }
+}
 
 // ------------------------------------------------------------------------------------------------
 // unary functions: name, input width, real function, reference (value or "no reference")
@@ -184,8 +218,9 @@ static std::vector<u64> inputs(int w, u64 seed, bool thorough, bool light)
         if (w == 32) v.push_back(i << 16);
         else if (i % 16 == 0 || thorough) { v.push_back(i << 16); v.push_back(i << 32); v.push_back(i << 48); }
     }
+    if (thorough && w == 32 && !light) { u64 off = (seed * 2654435761ULL) % 4096; for (u64 i = 0; i < (1ULL << 20); ++i) v.push_back(i * 4096 + off); }
     Rng r(seed * 1000003ULL + (u64)w);
-    u64 nr = thorough ? 2000000 : (light ? 5000 : 20000);
+    u64 nr = thorough ? (light ? 50000 : 200000) : (light ? 5000 : 20000);
     for (u64 i = 0; i < nr; ++i) {
         u64 x = r.next();
         switch (r.below(4)) {                        // uniform, sparse, dense, short
@@ -210,11 +245,16 @@ int main(int argc, char** argv)
         u64 part = strtoull(argv[2], 0, 10), nparts = strtoull(argv[3], 0, 10);
         out = fopen(argv[4], "w");
         u64 lo = (0x100000000ULL / nparts) * part, hi = part + 1 == nparts ? 0x100000000ULL : (0x100000000ULL / nparts) * (part + 1);
+        init_fast();
         for (auto& u : unaries) {
             if (u.w != 32) continue;
+            Kind kd = kind_of(u.name);
+            const char* dot = strchr(u.name, '.');
+            bool wrapper = !strncmp(u.name, "bitop.", 6) && dot && dot[1] >= 'A' && dot[1] <= 'Z' && strncmp(dot + 1, "BitOps4_", 8);
+            if (kd == K_NONE || wrapper) continue;          // thin cds::bitop::X<T> wrappers: structured set only
             u64 n = 0, bad = 0;
             for (u64 x = lo; x < hi; ++x) {
-                i64 e; if (!u.ref(x, e)) continue;
+                i64 e; if (!fast_ref(kd, x, e)) continue;
                 i64 o = u.real(x); ++n;
                 if (o != e && bad++ < 5) { fprintf(out, "MISMATCH %s ", u.name); put_u(x); fprintf(out, " | "); if (u.res_u64) put_u((u64)e); else put_s(e); fprintf(out, " | "); if (u.res_u64) put_u((u64)o); else put_s(o); fprintf(out, "\n"); }
             }
@@ -229,6 +269,7 @@ int main(int argc, char** argv)
     out = fopen(argv[6], "w");
     if (!out) return 2;
     bool ref = mode == "ref";
+    init_fast();
     u64 k = 0;
     for (auto& u : unaries) {
         const char* dot = strchr(u.name, '.');
@@ -241,6 +282,7 @@ int main(int argc, char** argv)
             if (ref) {
                 i64 e; if (!u.ref(x, e)) continue;
                 ++n;
+                if (u.w == 32) { i64 f; Kind kd = kind_of(u.name); if (fast_ref(kd, x, f) && f != e) { fprintf(out, "MISMATCH harness.fast_reference_of_%s ", u.name); put_u(x); fprintf(out, " | "); put_s(e); fprintf(out, " | "); put_s(f); fprintf(out, "\n"); } }
                 if (o != e && bad++ < 5) { fprintf(out, "MISMATCH %s ", u.name); put_u(x); fprintf(out, " | "); if (u.res_u64) put_u((u64)e); else put_s(e); fprintf(out, " | "); if (u.res_u64) put_u((u64)o); else put_s(o); fprintf(out, "\n"); }
             } else {
                 fprintf(out, "%s ", u.name); put_u(x); fprintf(out, " -> ");
